@@ -176,10 +176,16 @@ Exec ==
                 ok == KeyValOf(heap, node)
                 m == Matches(heap, ins.l, ok)
             IN \/ CanPanic /\ Unwind
-               \/ /\ bad' = bad \cup KeyReadBad(heap, node) \cup LookupBad(heap, ins.l, ok)
+               \/ /\ m = {} /\ ins.m # 1                 \* put_nonnull / replace_or_create_node: map.remove(..).unwrap() on None
+                  /\ tok' = DropToks(tok, regs.owned)
+                  /\ bad' = bad \cup KeyReadBad(heap, node) \cup LookupBad(heap, ins.l, ok) \cup DropBad(tok, regs.owned)
+                                \cup (IF panics = 0 THEN {"unwrap-on-none"} ELSE {})
+                  /\ prog' = <<>> /\ regs' = NoRegs /\ panics' = panics + 1 /\ UNCHANGED <<heap, index, nputs, tgt>>
+               \/ /\ (m # {} \/ ins.m = 1)
+                  /\ bad' = bad \cup KeyReadBad(heap, node) \cup LookupBad(heap, ins.l, ok)
                   /\ IF m = {}
                      THEN IF ins.m = 1 THEN Cont(SetR(regs, ins.r, 0), <<>>) /\ UNCHANGED <<heap, index, tok, nputs, panics, tgt>>   \* remove_lru_in: None
-                          ELSE InternalPanic                                                                                  \* put_nonnull: .unwrap()
+                          ELSE FALSE                                                                                          \* put_nonnull: .unwrap()
                      ELSE LET e == CHOOSE x \in m : TRUE IN
                           /\ index' = index \ {e} /\ Cont(SetR(regs, ins.r, e.n), <<>>)
                           /\ UNCHANGED <<heap, tok, nputs, panics, tgt>>
